@@ -16,6 +16,13 @@ inject cases: tested role (client / server) x kex (curve25519, nistp256, group14
     is one of the very type the tested side is waiting for at that position (it IS "the next expected
     key-exchange message"; outcome counted). Hypothesis additionally draws (type 0..255, body
     well-formed / random bytes, position, role, kex).
+    LAYOUT OF THE PEER'S KEXINIT ("layout"): strict mode is agreed by a marker name inside the kex name-list, and a
+    peer may put it anywhere (paramiko / OpenSSH append it, Dropbear lists kexguess2@matt.ucc.asn.au after it). The
+    NON-tested peer is a LayoutTransport that moves its own marker - first, right after its first method, followed
+    by a method name the tested side does not know, between two unknown names (with ext-info next to it) - and hashes
+    the KEXINIT it really sent (an honest peer with another habit). Whether strict mode applies is still read off
+    the wire by membership, so the oracle above holds unchanged for every layout; the honest sessions below are run
+    with every layout too (laid out by the client, the server or both) and are the control that such a peer works.
 terrapin cases (client tested, both strict): IGNORE injected before the server's NEWKEYS and / or
     the server's first encrypted packet deleted. Oracle: inject -> handshake fails; delete only ->
     no authenticated session can be obtained afterwards (the shifted stream must not verify).
@@ -41,9 +48,13 @@ RULE = (
     "every message number 1..49 (incl. EXT_INFO 7, NEWKEYS 21, all kex-method numbers) plus 23 numbers >= 50, each with a body "
     "well-formed for that message, x role x every position (quick: numbers < 50 complete for curve25519, otherwise one rotating "
     "position/role per number and kex method; thorough: complete), plus hypothesis-drawn (type 0..255, well-formed or random body, position, role, "
-    "kex); an injected message of the type the receiver is waiting for carries no obligation; terrapin: {inject+delete, delete} x "
+    "kex); layout of the peer's KEXINIT (classes kexinit-layout:<name>, strict-marker:<side>:last / followed-by-pseudo-names-only / "
+    "followed-by-algorithm-names[+first]): the non-tested peer moves its strict marker to the front / behind its first method / in "
+    "front of an unknown method name / between unknown names, x role x position x IGNORE + one rotating other message (thorough: all 6, "
+    "kex rotating), drawn in the hypothesis parts, honest sessions with every layout by client / server / both; "
+    "an injected message of the type the receiver is waiting for carries no obligation; terrapin: {inject+delete, delete} x "
     "cipher/mac (4); honest: strict flags(4) x cipher/mac(5) x rekeys 0..2 with initiators drawn by hypothesis. non-trivial = "
-    "injection at a position > 0, a deletion, or an honest session with >= 1 re-exchange; distinct by full case"
+    "injection at a position > 0, a deletion, or an honest session with >= 1 re-exchange or a re-laid KEXINIT; distinct by full case"
 )
 
 KEXES = ["curve25519-sha256@libssh.org", "ecdh-sha2-nistp256", "diffie-hellman-group14-sha256", "diffie-hellman-group-exchange-sha256"]
@@ -112,14 +123,96 @@ def _payload(name, body=None):
     }[name]
 
 
-def _pair(kex, strict_c, strict_s, suite=None):
+# Where a peer puts its strict-kex marker inside the kex name-list of its KEXINIT is its own business (OpenSSH and
+# paramiko append it, Dropbear lists "kexguess2@matt.ucc.asn.au" after it): the marker counts wherever it stands.
+LAYOUTS = ["marker-first", "marker-after-first-name", "marker-then-unknown-name", "marker-between-unknown-names"]
+UNKNOWN_KEX_NAMES = ["kexguess2@matt.ucc.asn.au", "sntrup761x25519-sha512@openssh.com"]
+
+
+def relayout(names, layout):
+    """The kex name-list `names` with its strict-kex marker moved (same set of names, + names the other side
+    cannot know for the layouts that say so)."""
+    markers = [n for n in names if n.startswith("kex-strict-")]
+    rest = [n for n in names if not n.startswith("kex-strict-")]
+    if not markers or not layout:
+        return list(names)
+    if layout == "marker-first":
+        return markers + rest
+    if layout == "marker-after-first-name":
+        return rest[:1] + markers + rest[1:]
+    if layout == "marker-then-unknown-name":
+        return rest + markers + UNKNOWN_KEX_NAMES[:1]
+    if layout == "marker-between-unknown-names":
+        real = [n for n in rest if not mitm.is_pseudo(n)]
+        pseudo = [n for n in rest if mitm.is_pseudo(n)]
+        return real + UNKNOWN_KEX_NAMES[1:] + pseudo[:1] + markers + pseudo[1:] + UNKNOWN_KEX_NAMES[:1]
+    raise core.HarnessError("unknown KEXINIT layout %r" % (layout,))
+
+
+class LayoutTransport(peers.VTransport):
+    """NON-tested peer that lays out the kex name-list of its own KEXINITs as `v_layout` says. It hashes what it
+    sent (its I_C / I_S is the payload that went on the wire), so for the tested side it is an honest peer with
+    another habit of ordering its list."""
+
+    v_layout = None
+
+    def _send_message(self, data):
+        raw = data.asbytes()
+        if self.v_layout and raw[:1] == b"\x14":
+            from paramiko.message import Message
+
+            d = mitm.parse_kexinit(raw)
+            d["kex"] = relayout(d["kex"], self.v_layout)
+            new = mitm.build_kexinit(d)
+            if new != raw:
+                self.local_kex_init = self._latest_kex_init = new
+                data = Message(new)
+        return peers.VTransport._send_message(self, data)
+
+
+def _pair(kex, strict_c, strict_s, suite=None, layout=None, layout_side=None):
+    """layout / layout_side: the peer(s) named by layout_side ("c", "s" or "cs") lay out their KEXINIT kex list
+    as `layout` says."""
     import paramiko
 
     dis = {"kex": mitm.only(mitm.ALL_KEX, kex), "keys": mitm.only(ALLKEYS, "ssh-ed25519")}
     if suite is not None:
         dis["ciphers"] = mitm.only(paramiko.Transport._preferred_ciphers, suite[0])
         dis["macs"] = mitm.only(paramiko.Transport._preferred_macs, suite[1])
-    return peers.make_pair(client_kw={"disabled_algorithms": dis, "strict_kex": strict_c}, server_kw={"strict_kex": strict_s}, host_keys=("ed25519",))
+    side = (layout_side or "") if layout else ""
+    link, tc, ts = peers.make_pair(
+        client_cls=LayoutTransport if "c" in side else peers.VTransport,
+        server_cls=LayoutTransport if "s" in side else peers.VTransport,
+        client_kw={"disabled_algorithms": dis, "strict_kex": strict_c},
+        server_kw={"strict_kex": strict_s},
+        host_keys=("ed25519",),
+    )
+    for t, x in ((tc, "c"), (ts, "s")):
+        if x in side:
+            t.v_layout = layout
+    return link, tc, ts
+
+
+def _marker_classes(m):
+    """Evidence: where the strict marker stands in each side's first KEXINIT on the wire."""
+    out = []
+    for d, who in (("c2s", "client"), ("s2c", "server")):
+        ki = m.kexinit(d)
+        names = ki["kex"] if ki else []
+        idx = [i for i, n in enumerate(names) if n.startswith("kex-strict-")]
+        if not idx:
+            continue
+        after = names[idx[-1] + 1 :]
+        if not after:
+            where = "last"
+        elif all(mitm.is_pseudo(n) for n in after):
+            where = "followed-by-pseudo-names-only"
+        else:
+            where = "followed-by-algorithm-names"
+        if idx[0] == 0:
+            where += "+first"
+        out.append("strict-marker:%s:%s" % (who, where))
+    return out
 
 
 def _pack(kex):
@@ -153,7 +246,8 @@ def run_inject(ctx, case):
         return [_payload(what, case.get("body")), payload]
 
     with _pack(kex):
-        link, tc, ts = _pair(kex, case["strict_c"], case["strict_s"])
+        # (the NON-tested peer = the sender of the packets the tested side receives lays out its KEXINIT)
+        link, tc, ts = _pair(kex, case["strict_c"], case["strict_s"], layout=case.get("layout"), layout_side="s" if role == "client" else "c")
         m = mitm.PlainMitm(link)
         m.on_packet = lambda d, i, p: cb(m, d, i, p)
         try:
@@ -175,6 +269,8 @@ def run_inject(ctx, case):
         ctx.case(case, False, ["inject:not-applied"])
         return True
     cl = ["inject", "inject:" + what, "role:" + role, "kex:" + kex, "pos:%d(before type %d)" % (pos, applied[0]), "strict-agreed" if strict else "strict-not-agreed"]
+    cl.append("kexinit-layout:" + (case.get("layout") or "default"))
+    cl += _marker_classes(m)
     awaited = False
     if what.startswith("type:"):
         t = int(what[5:])
@@ -198,9 +294,9 @@ def run_inject(ctx, case):
     if done:
         ctx.violation(
             "strict-kex-terminates-on-unexpected-message",
-            "%s:%s:%s" % (role, what, "before-kexinit" if pos == 0 else "after-kexinit"),
+            "%s:%s:%s%s" % (role, what, "before-kexinit" if pos == 0 else "after-kexinit", ":peer-kexinit-layout" if case.get("layout") else ""),
             case,
-            "strict mode agreed on the wire; %s received %s before the peer's packet #%d (type %d); error=%r initial_kex_done=%s active=%s" % (role, what, pos, applied[0], err, done, active),
+            "strict mode agreed on the wire (peer's kex list laid out: %s); %s received %s before the peer's packet #%d (type %d); error=%r initial_kex_done=%s active=%s" % (case.get("layout") or "default", role, what, pos, applied[0], err, done, active),
         )
         return False
     return True
@@ -311,7 +407,7 @@ def run_honest(ctx, case):
     suite = tuple(case["suite"])
     rekeys = list(case["rekeys"])
     with _pack(kex):
-        link, tc, ts = _pair(kex, case["strict_c"], case["strict_s"], suite)
+        link, tc, ts = _pair(kex, case["strict_c"], case["strict_s"], suite, layout=case.get("layout"), layout_side=case.get("layout_side"))
         m = mitm.PlainMitm(link)
         try:
             ce, se = peers.start_both(tc, ts, timeout=60.0)
@@ -338,7 +434,8 @@ def run_honest(ctx, case):
             peers.shutdown(tc, ts)
             mitm.cancel_timers(tc, ts)
     strict = wire_strict(m)
-    ctx.case(case, bool(rekeys), ["honest", "honest:strict" if strict else "honest:not-strict", "honest:rekeys=%d" % len(rekeys), "suite:%s/%s" % suite])
+    lay = case.get("layout") if case.get("layout_side") else None
+    ctx.case(case, bool(rekeys) or bool(lay), ["honest", "honest:strict" if strict else "honest:not-strict", "honest:rekeys=%d" % len(rekeys), "suite:%s/%s" % suite, "kexinit-layout:" + (lay or "default")] + ["honest:kexinit-layout-by:" + x for x in (case.get("layout_side") or "") if lay] + _marker_classes(m))
     if strict is None:
         raise core.HarnessError("no KEXINIT captured")
     if len(c_ep) != 1 + len(rekeys) or len(s_ep) != 1 + len(rekeys):
@@ -381,6 +478,16 @@ def inject_domain(quick):
                     if quick and t >= 50 and ki in (1, 2):
                         continue
                     out.append({"kind": "inject", "role": role, "kex": kex, "strict_c": True, "strict_s": True, "pos": pos, "inject": "type:%d" % t})
+    # layout of the peer's KEXINIT (strict mode agreed): role x layout x position x IGNORE and one rotating other message
+    j = 0
+    for role in ("client", "server"):
+        for li, layout in enumerate(LAYOUTS):
+            kex = KEXES[0] if quick else KEXES[li % len(KEXES)]
+            npk = 4 if mitm.kex_family(kex) == "gex" else 3
+            for pos in range(npk):
+                for what in (["ignore", INJECT[1 + j % (len(INJECT) - 1)]] if quick else INJECT):
+                    out.append({"kind": "inject", "role": role, "kex": kex, "strict_c": True, "strict_s": True, "pos": pos, "inject": what, "layout": layout})
+                j += 1
     return out
 
 
@@ -394,7 +501,9 @@ def _dispatch(ctx, case):
 
 
 def run(ctx):
-    ctx.set_budget(80, 780)
+    # (VERIF_BUDGET_SCALE: validation runs on an oversubscribed machine may stretch the wall-clock safety net; never part of a verdict)
+    _bs = max(1.0, float(__import__("os").environ.get("VERIF_BUDGET_SCALE", "1") or 1))
+    ctx.set_budget(80 * _bs, 780 * _bs)
     dom = inject_domain(ctx.quick)
     for s in SUITES[:4]:
         dom.append({"kind": "terrapin", "suite": list(s), "inject": True, "drop": True})
@@ -404,6 +513,9 @@ def run(ctx):
     for i, (sc, ss) in enumerate(((True, True), (True, False), (False, True), (False, False))):
         dom.append({"kind": "honest", "kex": KEXES[i % 2], "strict_c": sc, "strict_s": ss, "suite": list(SUITES[i]), "rekeys": ["c", "s"]})
     dom.append({"kind": "honest", "kex": KEXES[3], "strict_c": True, "strict_s": True, "suite": list(SUITES[4]), "rekeys": ["s"]})
+    # honest floor: every KEXINIT layout, laid out by the client / the server / both
+    for i, layout in enumerate(LAYOUTS):
+        dom.append({"kind": "honest", "kex": KEXES[i % 2], "strict_c": True, "strict_s": True, "suite": list(SUITES[i % len(SUITES)]), "rekeys": [["s"], [], ["c"], []][i], "layout": layout, "layout_side": ["s", "c", "cs", "s"][i]})
     mine = [c for i, c in enumerate(dom) if i % ctx.nworkers == ctx.worker]
     complete = True
     for c in mine:
@@ -422,9 +534,10 @@ def run(ctx):
             "strict_s": st.integers(0, 3).map(lambda k: k > 0),
             "suite": st.sampled_from(SUITES).map(list),
             "rekeys": st.integers(0, 3).flatmap(lambda k: st.lists(st.sampled_from(["c", "s"]), min_size=min(k, 1), max_size=2)),
-        }
+        },
+        optional={"layout": st.sampled_from(LAYOUTS), "layout_side": st.sampled_from(["c", "s", "cs"])},
     )
-    ctx.explore(honest, lambda c: _dispatch(ctx, c), ctx.scale(30, 800), shrink=False)
+    ctx.explore(honest, lambda c: _dispatch(ctx, c), ctx.scale(26, 800), shrink=False)
     drawn = st.fixed_dictionaries(
         {
             "kind": st.just("inject"),
@@ -435,9 +548,9 @@ def run(ctx):
             "pos": st.integers(0, 3),
             "inject": st.one_of(st.integers(0, 49), st.integers(0, 255)).filter(lambda t: t != 20).map(lambda t: "type:%d" % t),
         },
-        optional={"body": st.binary(max_size=40)},
+        optional={"body": st.binary(max_size=40), "layout": st.sampled_from(LAYOUTS)},
     )
-    ctx.explore(drawn, lambda c: _dispatch(ctx, c), ctx.scale(40, 1500), shrink=False, seed_offset=1)
+    ctx.explore(drawn, lambda c: _dispatch(ctx, c), ctx.scale(32, 1500), shrink=False, seed_offset=1)
 
 
 def replay(ctx, case):
